@@ -104,7 +104,18 @@ def gen_case(rng, thorough, kind=None):
     if rng.random() < 0.5:
         caps = [caps[0]] * nb          # the real pipeline keeps one cap for all batches
     return {'kind': kind, 'names': names, 'label': label, 'target_only': to, 'heuristic': heuristic, 'caps': caps,
-            'nrows': rng.choice([4, 6, 9, 15, 25]), 'dseed': rng.randrange(2 ** 31)}
+            'nrows': rng.choice([4, 6, 9, 15, 25]), 'dseed': rng.randrange(2 ** 31), 'ncpus': rng.choice([1, 1, 2, 3, 7])}
+
+
+def gen_wide(rng):
+    """pairwise scope over 22..40 columns (>= 256 pairs) handed to pools of several sizes: every requested pair must be scored
+    whatever the worker count (dispatch in per-worker chunks must not lose a remainder)"""
+    n = rng.choice([22, 23, 25, 29, 31, 40])
+    names = [f'f{i:02d}' for i in range(n)]
+    label = names[rng.randrange(n)]
+    nc = n_combos(names, label, False, False)
+    return {'kind': 'graph', 'names': names, 'label': label, 'target_only': False, 'heuristic': 'MI-numba-randomized',
+            'caps': [rng.choice([nc + 5, nc, 257, 301])], 'nrows': 4, 'dseed': rng.randrange(2 ** 31), 'ncpus': rng.choice([2, 3, 5, 7])}
 
 
 def gen_clamp(rng):
@@ -130,10 +141,13 @@ class _Res:
 
 
 class SyncPool:
-    """synchronous stand-in for the pathos pool; records what was handed to the scorer and what came back"""
+    """synchronous stand-in for the pathos pool with its whole mapping API (amap / map / imap / uimap, ncpus / nodes), so
+    that a change of the dispatch style is not mistaken for a violation.  What is handed to the SCORER is observed by
+    wrapping `get_importances_estimate_pairwise` (see run_graph), not here."""
 
-    def __init__(self):
-        self.calls = []
+    def __init__(self, ncpus=1):
+        self.ncpus = self.nodes = ncpus
+        self.ncalls = 0
 
     def __enter__(self):
         return self
@@ -141,11 +155,26 @@ class SyncPool:
     def __exit__(self, *a):
         return False
 
-    def amap(self, f, xs):
-        xs = list(xs)
-        res = [f(x) for x in xs]
-        self.calls.append((xs, res))
-        return _Res(res)
+    def close(self):
+        pass
+
+    def join(self):
+        pass
+
+    def clear(self):
+        pass
+
+    def map(self, f, *xss):
+        self.ncalls += 1
+        return [f(*x) for x in zip(*[list(xs) for xs in xss])]
+
+    def imap(self, f, *xss):
+        return iter(self.map(f, *xss))
+
+    uimap = imap
+
+    def amap(self, f, *xss):
+        return _Res(self.map(f, *xss))
 
 
 class PBar:
@@ -198,20 +227,30 @@ def run_impl(case):
         pyrandom.seed(case['dseed'])
         for cap in case['caps']:
             args = make_args(case, cap)
-            pool = SyncPool()
-            out = cr.mixed_rank_graph(df, args, pool, PBar())
+            pool = SyncPool(case.get('ncpus', 1))
+            spy = []
+            orig = cr.get_importances_estimate_pairwise
+
+            def scorer(combination, *a, **k):
+                r = orig(combination, *a, **k)
+                spy.append((tuple(combination), tuple(r)))
+                return r
+            cr.get_importances_estimate_pairwise = scorer
+            try:
+                out = cr.mixed_rank_graph(df, args, pool, PBar())
+            finally:
+                cr.get_importances_estimate_pairwise = orig
             rows = [tuple(t) for t in out.triplet_scores]
             b = {'cap': cap, 'cap_after': args.combination_number_upper_bound, 'rows': rows,
                  'counter': dict(cr.GLOBAL_PRIOR_COMB_COUNTS)}
             if case['heuristic'] == 'Constant':
                 b['ev'] = [(r[0], r[1]) for r in rows]
                 b['results'] = None
-                b['pool_calls'] = len(pool.calls)
+                b['pool_calls'] = pool.ncalls
             else:
-                b['pool_calls'] = len(pool.calls)
-                xs, res = pool.calls[0] if pool.calls else ([], [])
-                b['ev'] = [tuple(x) for x in xs]
-                b['results'] = [tuple(t) for t in res]
+                b['pool_calls'] = pool.ncalls
+                b['ev'] = [x for x, _ in spy]
+                b['results'] = [t for _, t in spy]
             obs['batches'].append(b)
     except Exception as e:                                      # the property implies the call succeeds
         obs['error'] = f'{type(e).__name__}: {e}'
@@ -549,6 +588,7 @@ def run(ctx: Ctx):
     n = 4000 if ctx.thorough() else 400
     cases = corpus() + with_family_switches(ctx.rng, [gen_case(ctx.rng, ctx.thorough()) for _ in range(n)])
     cases += [gen_clamp(ctx.rng) for _ in range(4 if ctx.thorough() else 1)]
+    cases += [gen_wide(ctx.rng) for _ in range(12 if ctx.thorough() else 3)]
     evaluate(ctx, cases)
 
 
@@ -556,5 +596,5 @@ def search(ctx: Ctx):
     """extended failing-input search (oracle only, wider budget)"""
     sub = Ctx(ctx.prop, ctx.tier)
     sub.rng.seed(f'search:{ctx.seed}')
-    evaluate(sub, with_family_switches(sub.rng, [gen_case(sub.rng, True, kind='graph') for _ in range(1500)]), oracle_only=True)
+    evaluate(sub, with_family_switches(sub.rng, [gen_case(sub.rng, True, kind='graph') for _ in range(1500)]) + [gen_wide(sub.rng) for _ in range(6)], oracle_only=True)
     return sub.oracle_failures
